@@ -328,9 +328,14 @@ def impl(case):
     from drxtract.lingosrc.ast import FunctionDef
     B = lambda s: bytes.fromhex("" if s == "-" else s)
     out = []
+    import signal
+    def _alarm(sig, frm):
+        raise TimeoutError()
+    signal.signal(signal.SIGALRM, _alarm)
     for line in case["lines"]:
         t = line.split()
         cmd = t[1]
+        signal.setitimer(signal.ITIMER_REAL, 5.0)     # a literal that takes seconds is a hang (replace loop not advancing)
         try:
             if cmd == "cstr":
                 out.append(canon(_const_triple(escape_string(B(t[2]).decode(get_encoding())))))
@@ -365,8 +370,12 @@ def impl(case):
                 out.append("bad-op")
         except RecursionError:
             raise
+        except TimeoutError:
+            out.append(canon("timeout"))
         except Exception:
             out.append(canon("error"))
+        finally:
+            signal.setitimer(signal.ITIMER_REAL, 0)
     return out
 
 
@@ -426,6 +435,8 @@ def _put_literals(text, lang):
 def oracle(case, io):
     k = case["kind"]
     if k.startswith("string"):
+        if io[0] == '"timeout"':
+            return "lingo+js: the real code does not terminate on a string constant"
         if io[0] == '"error"':
             return "lingo+js: the real code raised on a string constant"
         return _check_const("s", bytes.fromhex(case["spec"]["bytes"]), json.loads(io[0]))
@@ -442,6 +453,8 @@ def oracle(case, io):
         return None
     if k.startswith("pool"):
         consts = [(a, bytes.fromhex(b) if a in ("s", "f") else b) for a, b in case["spec"]["consts"]]
+        if io[0] == '"timeout"':
+            return "lingo+js: the real code does not terminate on a constant pool"
         if io[0] == '"error"':
             # parse_lrcr_crb raised: which constant is to blame?
             for a, b in consts:
